@@ -249,6 +249,8 @@ def run_c06(tier, seed):
     res = Result("C06", tier, seed)
     rng = random.Random(seed)
     raws = [gen.curated_schemas()[i] for i in (2, 7, 30, 33)] + [{"type": "record", "name": "R", "fields": [{"name": "a", "type": "long"}, {"name": "s", "type": "string"}]}]
+    BIG = {"type": "record", "name": "Big", "fields": [{"name": "id", "type": "long"}, {"name": "payload", "type": "bytes"}, {"name": "t", "type": "string"}]}
+    raws.append(BIG)
     for raw in raws:
         try:
             p, ns = SS.parse_top(raw)
@@ -256,6 +258,9 @@ def run_c06(tier, seed):
             continue
         sets = record_sets(p, ns, rng, tier)
         recs = sets[2] if len(sets) > 2 else (sets[-1] if sets else [])
+        if raw is BIG:
+            # values larger than any internal chunk / buffer size (64 KiB, 1 MiB)
+            recs = [{"id": 1, "payload": bytes(rng.randrange(256) for _ in range(70000)), "t": "x" * 66000}, {"id": 2, "payload": b"", "t": "end"}]
         want = [NORM(p, ns, r, {}) for r in recs]
         for codec in CODECS:
             fo = io.BytesIO()
@@ -263,7 +268,10 @@ def run_c06(tier, seed):
             data = fo.getvalue()
             f = D.parse_file(data)
             boundaries = {f["header_end"]} | {b["offset"] + b["size"] for b in f["blocks"]}
-            cuts = range(len(data) + 1) if len(data) <= 700 or tier != "quick" else sorted(set(rng.sample(range(len(data)), 300)) | boundaries)
+            if len(data) > 20000:
+                cuts = sorted(set(rng.sample(range(len(data)), 120 if tier == "quick" else 1500)) | boundaries | set(range(0, 40)))
+            else:
+                cuts = range(len(data) + 1) if len(data) <= 700 or tier != "quick" else sorted(set(rng.sample(range(len(data)), 300)) | boundaries)
             for cut in cuts:
                 res.case("truncation", (short(raw, 500), codec, cut), sample={"schema": short(raw), "codec": codec, "cut": cut, "len": len(data)})
                 got = []
@@ -284,6 +292,18 @@ def run_c06(tier, seed):
                     nrec = sum(b["count"] for b in f["blocks"][:nblocks])
                     if len(got) != nrec:
                         res.fail("truncation", f"{len(got)} records at boundary {cut}, expected {nrec}", case, rp)
+            # proper prefixes of the schemaless encoding of the first record
+            if recs:
+                enc = A.ENC(p, ns, recs[0], {})
+                pcuts = range(len(enc)) if len(enc) <= 300 else sorted(set(rng.sample(range(len(enc)), 60)))
+                for cut in pcuts:
+                    res.case("schemaless_prefix_raises", (short(raw, 500), cut))
+                    try:
+                        got = fastavro.schemaless_reader(io.BytesIO(enc[:cut]), raw)
+                        res.fail("schemaless_prefix_raises", f"prefix of {cut}/{len(enc)} bytes decoded to {short(got, 120)}",
+                                 {"schema": short(raw), "cut": cut, "len": len(enc)}, "")
+                    except Exception:
+                        pass
             # sync marker alterations
             for bi, b in enumerate(f["blocks"]):
                 start = b["offset"] + b["size"] - 16
